@@ -4,6 +4,7 @@ use serde_json::Value;
 
 pub mod c01;
 pub mod c02;
+pub mod c03;
 pub mod c04;
 pub mod c05;
 pub mod c06;
@@ -49,6 +50,7 @@ pub fn get(id: &str) -> Option<Prop> {
     match id {
         "C01" => Some(c01::prop()),
         "C02" => Some(c02::prop()),
+        "C03" => Some(c03::prop()),
         "C04" => Some(c04::prop()),
         "C05" => Some(c05::prop()),
         "C06" => Some(c06::prop()),
